@@ -12,6 +12,7 @@ for f in .work/gen0/*.lean; do
   cmp -s "$f" "$d" || cp "$f" "$d"
 done
 cp .work/gen0/facts.json .work/facts.json
+cp .work/gen0/routes_glue_test.go .work/routes_glue_test.go
 rm -rf .work/gen0
 ( cd lean && lake build )
 # warm the go build cache for the harness packages
@@ -21,7 +22,8 @@ sys.path.insert(0, os.getcwd())
 from checks import common as c
 ctx = c.Ctx("setup", "quick", 1)
 for d, pkg in c.harness_packages().items():
-    rc, out = c.sh(["go", "test", "-tags", "verif", "-overlay", c.overlay_file(ctx), "-vet=off", "-count=1", "-run", "^$", "./" + pkg + "/"], cwd=c.REPO, env=c.GOENV)
+    pre = c.NETNS_PREFIX if c.netns_available() else []
+    rc, out = c.sh(pre + ["go", "test", "-tags", "verif", "-overlay", c.overlay_file(ctx), "-vet=off", "-count=1", "-run", "^$", "./" + pkg + "/"], cwd=c.REPO, env=c.GOENV)
     print(pkg, "compile rc", rc, out[-300:])
     if rc != 0: sys.exit(1)
 ctx.cleanup()
